@@ -27,7 +27,7 @@ pub enum Dom { Off, Exact, Weak, Coord }
 #[derive(Clone, Copy, Debug, PartialEq, Eq, Hash)]
 pub enum Rank { Asc, Desc, Equal }
 #[derive(Clone, Copy, Debug, PartialEq, Eq, Hash)]
-pub enum MergeMode { Powerset, MaxIdx }
+pub enum MergeMode { Powerset, MaxIdx, MaxIdxUp }
 
 /// Model level variation points (they are part of the *model*, not of the solver configuration)
 #[derive(Clone, Copy, Debug, PartialEq, Eq, Hash)]
@@ -257,7 +257,7 @@ impl Tm {
         for l in 0..self.n {
             let var = Variable(self.perm[l]);
             for x in 1u32..(1 << self.s) {
-                if self.mode == MergeMode::MaxIdx && x.count_ones() != 1 { continue; }
+                if self.mode != MergeMode::Powerset && x.count_ones() != 1 { continue; }
                 let src = self.mk(l, x);
                 for d in 0..self.nd {
                     let dec = Decision { variable: var, value: d as isize };
@@ -290,7 +290,7 @@ impl Tm {
                 }
             }
         }
-        if self.mode == MergeMode::MaxIdx {
+        if self.mode != MergeMode::Powerset {
             // monotonicity: a larger index is at least as good (needed for merge = max and for the coordinate dominance)
             for l in 0..=self.n {
                 for s in 1..self.s {
@@ -316,7 +316,7 @@ impl Problem for Tm {
         for s in self.members(state.x) {
             if let Some((t, _)) = self.tr[l][s][d] { r |= 1 << t; }
         }
-        if self.mode == MergeMode::MaxIdx && r != 0 { r = 1 << (31 - r.leading_zeros()); }
+        if self.mode != MergeMode::Powerset && r != 0 { r = 1 << (31 - r.leading_zeros()); }
         self.mk(l + 1, r)
     }
     fn transition_cost(&self, source: &St, dest: &St, decision: Decision) -> isize {
@@ -353,7 +353,11 @@ impl Relaxation for Tm {
         let mut d = 0;
         let mut x = 0;
         for s in states { d = s.d; x |= s.x; }
-        if self.mode == MergeMode::MaxIdx && x != 0 { x = 1 << (31 - x.leading_zeros()); }
+        if self.mode != MergeMode::Powerset && x != 0 {
+            let top = 31 - x.leading_zeros();
+            let single = x.count_ones() == 1;
+            x = if self.mode == MergeMode::MaxIdxUp && !single { 1 << (top + 1).min(self.s as u32 - 1) } else { 1 << top };
+        }
         St { d, x }
     }
     fn relax(&self, _source: &St, dest: &St, new: &St, decision: Decision, cost: isize) -> isize {
